@@ -13,6 +13,15 @@ NOTE_R = ("Mode R = IEEE specials over exact reals (no rounding/overflow/signed 
           "with instance axioms. Trusted: z3, the shim's model of NumPy element semantics, the oracles in /verif/spec and the harness. ")
 
 CHECKS = {
+    "C13": dict(
+        text="Bounded symbolic verification: operation sequences over {set inputs+process, restart, copy, edit a parameter or rule weight, "
+             "toggle-and-restore an enabled flag, batch step} run on six engines of registered components (incl. Linear/Function terms "
+             "holding engine references, Tsukamoto, two blocks) with the inputs of every step and the edited value symbolic over all "
+             "extended reals; after each processing step the solver decides whether outputs or fuzzy outputs can differ from a freshly "
+             "built engine given only that step's inputs, so any trace of history, of the other engine of a copy pair, or of a toggled "
+             "flag is a counterexample; state after restart and the copy's object graph are checked as well.",
+        note=NOTE_R + "Sequence shapes enumerated (12 quick); lock-previous off as the statement says; object-graph disjointness is a concrete check.",
+        ref="DESIGN.md §2 C13"),
     "C19": dict(
         text="Bounded symbolic verification: for each of 10 engine skeletons the presence of every operator and defuzzifier is a symbolic "
              "boolean chosen at construction (every subset of missing components is a path) and all inputs are symbolic finite reals; the "
